@@ -195,8 +195,9 @@ def shard(seed, n):
 
     try:
         t()
-    except AssertionError:
-        pass
+    except BaseException:
+        if not fails:
+            raise
     if fails:
         acc.violations.append(fails[-1])
     return acc
